@@ -190,7 +190,21 @@ func c17Run(raw []byte) (*Line, error) {
 		nice := func() (float64, float64) { return niceO(on) }
 		var major, minor []float64
 		pan, _ := catch(func() { major, minor = ticks() })
-		l.I(st(pan)).Fs(major).Fs(minor)
+		// a result of more than 50000 ticks is reported as status 4 with the first 16 elements
+		// (never accepted by the comparator: Max <= 20 in every generated case; the level below
+		// the chosen one has at most Max * Base^2 ticks)
+		tooLong := func(x []float64) bool { return len(x) > 50000 }
+		cut := func(x []float64) []float64 {
+			if tooLong(x) {
+				return x[:16]
+			}
+			return x
+		}
+		stT := st(pan)
+		if !pan && (tooLong(major) || tooLong(minor)) {
+			stT = 4
+		}
+		l.I(stT).Fs(cut(major)).Fs(cut(minor))
 		l.I(len(c.Levels))
 		for _, lev := range c.Levels {
 			var n int
@@ -209,6 +223,8 @@ func c17Run(raw []byte) (*Line, error) {
 			status := st(pan)
 			if skipped && !pan {
 				status = 3
+			} else if !pan && tooLong(t) {
+				status, t = 4, t[:16]
 			}
 			l.I(lev).I(n).I(status).Fs(t)
 		}
@@ -224,7 +240,11 @@ func c17Run(raw []byte) (*Line, error) {
 		pan3, _ := catch(func() { major3, _ = ticksN() })
 		pan, _ = catch(func() { a, b = nice() })
 		l.I(st(pan)).F(a).F(b)
-		l.I(st(pan3)).Fs(major3)
+		st3 := st(pan3)
+		if !pan3 && tooLong(major3) {
+			st3, major3 = 4, major3[:16]
+		}
+		l.I(st3).Fs(major3)
 		return l, nil
 	}
 	return nil, fmt.Errorf("bad kind")
